@@ -1,6 +1,6 @@
 (* C12 — the websocket shim answers every call and survives any call order.  Statements only. *)
 From Coq Require Import List Arith Bool.
-From IP Require Import Gen.SrcFacts_Websockets Websockets.Shim Proofs.ShimProofs.
+From IP Require Import Gen.SrcFacts_Websockets Websockets.Shim Proofs.ShimProofs Websockets.ShimTable Proofs.ShimTableProofs.
 Import ListNotations.
 
 (* Any number of close and data calls racing on one session, the writer goroutine and the
@@ -39,6 +39,54 @@ Proof. exact guarded_progress_when_done. Qed.
 Print Assumptions C12_progress_when_backend_gone.
 
 (* sharpness = the defects repaired in the source (unguarded Close / Send): *)
+(* ------------------------------------------------------------------------------------------
+   Several sessions (Websockets/ShimTable.v): which session a call reaches.  For every history of opens (also failed
+   ones), data posts with any mix of session IDs, polls, closes, and backends sending and hanging up.
+   ------------------------------------------------------------------------------------------ *)
+
+(* session IDs are never reused: the IDs handed out in a history are pairwise different, and a new session never gets the
+   ID of a session that is, or ever was, in the table *)
+Theorem C12_session_ids_unique :
+  (forall cs os t', trun t_init cs = (os, t') -> NoDup (opened os)) /\
+  (forall t id t', Bounded t -> tstep t (TOpen true) = (OOpened id, t') ->
+     lookup id (tbl t) = None /\ gone_recv id (gone t) = None /\ lookup id (tbl t') = Some {| s_open := true; s_queue := []; s_recv := [] |}).
+Proof. split; [exact session_ids_unique|exact open_is_fresh]. Qed.
+Print Assumptions C12_session_ids_unique.
+
+(* a call changes the session(s) it names and no other: state and delivered messages of every other session stay as they are *)
+Theorem C12_call_reaches_only_its_session : forall t c o t' j, Bounded t -> tstep t c = (o, t') -> ~ names c j -> j <= next_id t ->
+  lookup j (tbl t') = lookup j (tbl t) /\ received t' j = received t j.
+Proof. exact call_frame. Qed.
+Print Assumptions C12_call_reaches_only_its_session.
+
+(* a data post: answered 200, every element has been delivered to the session it names, in order, and to nobody else;
+   answered 400, exactly the elements before the first one naming a session that is not in the table (unknown or closed) or
+   whose backend is gone have been delivered, each to its own session, and the rest to nobody *)
+Theorem C12_data_post :
+  (forall t elems t', tstep t (TData elems) = (OStatus 200, t') -> forall i, received t' i = received t i ++ for_session i elems) /\
+  (forall t elems t', tstep t (TData elems) = (OStatus 400, t') ->
+     exists pre e post, elems = pre ++ e :: post /\ (forall i, received t' i = received t i ++ for_session i pre) /\
+       match lookup (fst e) (tbl t') with None => True | Some s => s_open s = false end).
+Proof. split; [exact data_accepted|exact data_rejected]. Qed.
+Print Assumptions C12_data_post.
+
+(* calls naming a session that is not in the table are answered 400 and change nothing; and a session that has left the
+   table (closed by the client, or reported closed by a poll) never comes back under that ID *)
+Theorem C12_closed_sessions_stay_closed :
+  (forall t i, lookup i (tbl t) = None ->
+     tstep t (TPoll i) = (OStatus 400, t) /\ tstep t (TClose i) = (OStatus 400, t) /\ forall m r, tstep t (TData ((i, m) :: r)) = (OStatus 400, t)) /\
+  (forall cs t os t' i, Bounded t -> trun t cs = (os, t') -> i <= next_id t -> lookup i (tbl t) = None -> lookup i (tbl t') = None).
+Proof. split; [exact unknown_session_rejected|exact no_resurrection]. Qed.
+Print Assumptions C12_closed_sessions_stay_closed.
+
+(* non-vacuity: three sessions, a failed open in between, a mixed post, a post cut short by a closed session *)
+Example C12_table_example :
+  let '(os, t) := trun t_init [TOpen true; TOpen false; TOpen true; TData [(1, 10); (3, 11); (1, 12)]; TClose 3; TData [(1, 13); (3, 14); (1, 15)];
+                                TBackendSend 1 7; TBackendClose 1; TPoll 1; TPoll 1; TPoll 1; TOpen true] in
+  os = [OOpened 1; OStatus 500; OOpened 3; OStatus 200; OStatus 200; OStatus 400; ONone; ONone; OPolled [7]; OStatus 400; OStatus 400; OOpened 4] /\
+  received t 1 = [10; 12; 13] /\ received t 3 = [11] /\ received t 2 = [].
+Proof. vm_compute. repeat split; reflexivity. Qed.
+
 (* two close calls for the same session: the second one sends on the closed channel *)
 Theorem C12_sharp_double_close :
   exists s, srun Original 10 (s_init [(1, CloseStart); (2, CloseStart)])
